@@ -85,6 +85,33 @@ Section Sound.
   Qed.
 End Sound.
 
+(* What a race-free table says about replies.  The translator emits a CEscape row for EVERY store of a reference that
+   is reachable from shared storage into an object the handler allocated (reply maps, slices, structs), into a composite
+   literal of a reply type, into a channel send or into a call it cannot see through.  So, for a table that passes:
+   (1) the only storage memory a delivered reply can share with the module are protocol.Lag values, and
+   (2) no handler writes a Lag value that is reachable from shared storage (such a write would be a CLagValue W row,
+       which conflicts with the lock-free reply-reader row and is never exempt).
+   Hence nothing a later request does is visible through a delivered reply. *)
+Theorem reply_alias_free_proof : forall keyed tbl,
+  race_free keyed tbl = true -> existsb is_reply_reader tbl = true ->
+  (forall r ty, In r tbl -> r_class r = CEscape ty -> ty = "*protocol.Lag"%string) /\
+  (forall r, In r tbl -> r_class r = CLagValue -> r_rw r = R) /\
+  (forall r what, In r tbl -> r_class r <> CBlocking what).
+Proof.
+  intros keyed tbl Hrf Hrd. unfold race_free in Hrf. apply andb_true_iff in Hrf. destruct Hrf as [Hok Hpairs].
+  rewrite forallb_forall in Hok. repeat split.
+  - intros r ty Hin Hc. specialize (Hok r Hin). unfold row_ok in Hok. rewrite Hc in Hok. now apply String.eqb_eq in Hok.
+  - intros r Hin Hc. destruct (r_rw r) eqn:Hrw; [reflexivity|]. exfalso.
+    apply existsb_exists in Hrd. destruct Hrd as (rd & Hinrd & Hrdr).
+    rewrite forallb_forall in Hpairs. specialize (Hpairs r Hin). rewrite forallb_forall in Hpairs. specialize (Hpairs rd Hinrd).
+    unfold is_reply_reader in Hrdr. destruct (r_class rd) eqn:Cd; try discriminate. destruct (r_rw rd); try discriminate.
+    destruct (r_locks rd) eqn:Ld; try discriminate.
+    unfold pair_ok, conflict, common_lock, exempt in Hpairs. rewrite Hc, Cd, Hrw, Ld in Hpairs. cbn in Hpairs.
+    assert (E : existsb (fun _ : lockc * lmode => false) (r_locks r) = false) by (induction (r_locks r); auto).
+    rewrite E in Hpairs. discriminate.
+  - intros r what Hin Hc. specialize (Hok r Hin). unfold row_ok in Hok. rewrite Hc in Hok. discriminate.
+Qed.
+
 (* ------------------------------------------------------------------------------------------- *)
 (* 2. lock order => progress at lock granularity                                                *)
 (* ------------------------------------------------------------------------------------------- *)
